@@ -131,11 +131,19 @@ class CHECK(Check):
     technique = ("Lean 4 theorems over the Moments model (same U in gamma and signed_weights, exchange of finite sums; "
                  "arithmetic lifted from the Python source) + compiled-driver correspondence with signed_weights / gamma / "
                  "project_lambda and with the relabel/reweight handed to a recording learner by _Lagrangian._call_oracle "
-                 "and GridSearch.fit")
+                 "and GridSearch.fit; those two functions' relabel / abs / normalisation / objective-switch / constant-"
+                 "label shortcut are lifted into Generated/OracleSrc.lean and Model/Oracle.lean's callOracle* is built "
+                 "from them")
     level_text = ("Theorems (arbitrary rational lambda, arbitrary soft h, h', any dataset/event assignment/ratio, no size "
                   "bound): reduction_identity, loss_identity (BoundedGroupLoss), objective_identity (ErrorRate with "
                   "costs), best_response (+ argmin equivalence with err + lambda.gamma and invariance under the "
-                  "_call_oracle normalisation), project_lambda_sound (ratio 1) / identity (ratio != 1). Tie: translator-"
+                  "_call_oracle normalisation), project_lambda_sound (ratio 1) / identity (ratio != 1); over the LIFTED "
+                  "_call_oracle / GridSearch.fit expressions: the weighted 0/1 error handed to the learner is "
+                  "(n^2/S)*L(h) + (n/S)*(sum max(w,0) - n*L(0)) resp. n*L(h) + (sum max(w,0) - n*L(0)) for every hard h "
+                  "(eg/grid_weighted_error_affine), arg-min sets over ANY hypothesis class coincide in both directions "
+                  "(eg/grid_argmin_iff), the DummyClassifier shortcut returns a minimiser (dummy_is_minimiser, "
+                  "eg/grid_dummy_minimises_lagrangian), zero-weight rows' labels are irrelevant so > vs >= is harmless "
+                  "(relabel_nonstrict_harmless), regression reductions (loss_oracle_identity, loss_grid_identity). Tie: translator-"
                   "lifted expressions + fairlearn's numbers vs the compiled Lean model; the identities are also "
                   "evaluated directly on fairlearn's own gamma / signed_weights / project_lambda outputs.")
     design_ref = "DESIGN.md section 4, C07"
@@ -149,7 +157,10 @@ class CHECK(Check):
             "reversed label order) x pairs of predictors (unit, hard, soft dyadic); ErrorRate objective with dyadic costs; "
             "BoundedGroupLoss with Square/Absolute/ZeroOne loss; kinds: 'parity' (Moment API), 'eg' (_Lagrangian."
             "_call_oracle with a recording learner), 'grid' (GridSearch.fit with a user grid and a recording learner), "
-            "'bgl'. distinct = distinct full case; non-trivial = the multiplier vector is non-zero and h != h'")
+            "'bgl', 'bgl-eg', 'bgl-grid', 'fit' (whole ExponentiatedGradient / GridSearch runs; every oracle call is replayed "
+            "through Oracle.callOracleParity / callGridParity with the exact rational value of the float multipliers). "
+            "distinct = distinct full case; non-trivial = the multiplier vector is non-zero and h != h'; thorough "
+            "additionally enumerates all 3- and 4-row label x two-group assignments x five moments through both reductions")
     explanation = ("theorems over Model/Moments.lean; the reduction / objective / loss identities, the best-response "
                    "identity and project_lambda's guarantee are evaluated on fairlearn's own outputs (relative tol 1e-9); "
                    "signed_weights is additionally compared with -n * gradient of lambda.gamma computed from the "
@@ -232,7 +243,7 @@ class CHECK(Check):
                         for kind in ("eg", "grid"):
                             for lk, lp in (("unit", 0), ("unit", 1), ("random", 0)):
                                 case = {"kind": kind, "moment": moment, "y": list(y), "g": list(g), "c": None,
-                                        "h": ["0"] * n, "h2": ["0"] * n, "gtype": "str", "ctype": "str",
+                                        "h": ["1"] + ["0"] * (n - 1), "h2": ["0"] * n, "gtype": "str", "ctype": "str",
                                         "container": "list", "pstyle": "flat", "db": None, "rb": "1/2" if lp else None,
                                         "slack": "0", "lam_kind": lk, "lam_pos": lp,
                                         "lam_pool": ["1", "1/2", "0", "2", "1", "3/4", "0", "1/4"] * 2,
